@@ -81,6 +81,29 @@ def extract():
     if len(set(sites.values())) != 1:
         raise ExtractError(f"staging suffixes differ between sites: {sites}")
     c["stagingSuffix"] = sites["bidir.rs"]
+    # the remote listing format handed to `find -printf` (meta.rs); Rust string escapes undone
+    fmt = one(read("src/bin/copia/meta.rs"), r"find \. -type f -printf '([^']*)'", "find -printf format")
+    c["findPrintf"] = [ord(ch) for ch in fmt.replace("\\\\", "\\")]
+    # the `$'...'` escaping chain: every site must use the same replace chain, in the same order
+    chains = {}
+    for rel in ("dir_sync.rs", "meta.rs", "single_sync.rs", "transfer.rs"):
+        txt = read("src/bin/copia/" + rel)
+        found = re.findall(r"((?:\.replace\('(?:\\.|[^'\\])',\s*\"(?:\\.|[^\"\\])*\"\))+)(?=[^;]*?;|\s*\))", txt)
+        found = [f for f in found if f.count(".replace(") >= 1 and "\\\\" in f]
+        if not found:
+            raise ExtractError(f"no escaping chain found in {rel}")
+        for f in found:
+            chains.setdefault(f, []).append(rel)
+    if len(chains) != 1:
+        raise ExtractError(f"escaping chains differ between sites: {chains}")
+    chain = next(iter(chains))
+    pairs = []
+    for m in re.finditer(r"\.replace\('((?:\\.|[^'\\]))',\s*\"((?:\\.|[^\"\\])*)\"\)", chain):
+        unesc = lambda t: bytes(t, "utf-8").decode("unicode_escape")
+        pairs.append((ord(unesc(m.group(1))), [ord(ch) for ch in unesc(m.group(2))]))
+    c["escapePairs"] = pairs
+    # every remote path interpolated into a command must sit inside $'...'
+    c["quoteSites"] = sum(len(re.findall(r"\$'\{[a-z_]*\}", read("src/bin/copia/" + rel))) for rel in ("dir_sync.rs", "meta.rs", "single_sync.rs", "transfer.rs"))
     c["serveChunk"] = arith(one(read("src/bin/copia/serve.rs"), r"vec!\[0u8; ([0-9_\s\*]+)\]", "serve chunk"))
     c["pushChunk"] = arith(one(read("src/bin/copia/transfer.rs"), r"vec!\[0u8; ([0-9_\s\*]+)\]", "push chunk"))
     return c
@@ -101,6 +124,8 @@ def render(c):
     L.append(f"def protocolMagic : List Nat := {list(c['protocolMagic'].encode())}")
     L.append(f"def wireMagic : List Nat := {list(c['wireMagic'].encode())}")
     L.append(f"def msgTypeCodes : List Nat := {c['msgTypeCodes']}")
+    L.append(f"def findPrintf : List Nat := {c['findPrintf']}")
+    L.append("def escapePairs : List (Nat × List Nat) := [" + ", ".join(f"({a}, {b})" for a, b in c["escapePairs"]) + "]")
     L.append(f"def stagingSuffix : String := {lean_str(c['stagingSuffix'])}")
     L.append("end Copia.Gen")
     return "\n".join(L) + "\n"
